@@ -513,6 +513,7 @@ def checkC18 (h : History) (obs : List RunObs) : Option String :=
             match mf.mutFrom with
             | some src =>
               if mf.mutExt then none else
+              if mf.mutBad then some s!"C18 run {k}: {m.id.name} was applied although one of its substitutions is rejected (source path matches nothing)" else
               match snapFind m.snap m.id, snapFind m.snap src with
               | some tgt, some sl =>
                 if tgt.frm = some sl.rev then none
